@@ -57,9 +57,18 @@ func plans(quick bool) []plan {
 	})
 	w1 := mk("voter-w1", func(c *Cfg) { c.Peers = peers(1, 1, 1); c.Kinds = pvpcnx; c.Rounds = 1; c.MaxIndex = 2 })
 	resume := mk("voter-resume-w2", func(c *Cfg) { c.Peers = peers(2, 2); c.Kinds = pvpc; c.Resume = true; c.Rounds = 1; c.MaxIndex = 2 })
+	// non-initial start state: the previous round was decided at round index 2 (prevote and precommit records of
+	// (R,2) are in the database) and the node has entered round R+1.  Restore logic that compares records of
+	// different rounds is only exercised from here.
+	after := mk("voter-after-idx2-w2", func(c *Cfg) {
+		c.Peers = peers(2, 2)
+		c.Kinds = pvpc
+		c.Rounds, c.MaxIndex = 2, 2
+		c.Prelude = []string{"step2:A", "next", "step2:A", "v:p1:PV:A", "round"}
+	})
 	if quick {
 		// cheapest first: what a system does not use of its share goes to the later ones
-		return []plan{{resume, 5}, {w1, 5}, {cert, 5}, {rounds, 6}, {w2, 6}}
+		return []plan{{resume, 5}, {w1, 5}, {after, 4}, {cert, 5}, {rounds, 6}, {w2, 6}}
 	}
 	// thorough variants get their own names: replay files name the system
 	t := func(c Cfg, f func(*Cfg)) Cfg { f(&c); c.Name += "+"; return c }
@@ -78,6 +87,7 @@ func plans(quick bool) []plan {
 			c.Rounds = 1
 		}), 7},
 		{mk("voter-missingB-w2", func(c *Cfg) { c.Peers = peers(2, 2); c.Kinds = pvpcnx; c.MissingB = true; c.Rounds = 1 }), 7},
+		{t(after, func(c *Cfg) { c.MaxCrashes = 2 }), 6},
 		{t(resume, func(c *Cfg) { c.MaxCrashes = 2; c.Rounds = 2 }), 7},
 		{t(w1, func(c *Cfg) { c.MaxCrashes = 2; c.Rounds = 2 }), 7},
 		{t(cert, func(c *Cfg) { c.MaxCrashes = 2; c.CrashMin = true; c.Rounds = 2 }), 7},
